@@ -479,7 +479,7 @@ func checkClosureExits(c *Ctx, r *Report) []SendClosure {
 					// must record errv into a captured cell and return nil
 					stored := false
 					for _, in := range p.Instrs() {
-						if cell, v, ok := cellStore(in); ok && (v == errv || p.Resolve(v) == errv) {
+						if cell, v, ok := cellStoreView(s.Fn, in); ok && (v == errv || p.Resolve(v) == errv) {
 							stored = true
 							terminalCell, haveTerminal = cell, true
 						}
